@@ -117,9 +117,16 @@ def oracle(shape, ells, rows, opt):
     sure = np.ones((s0, s1), bool)
     blank = np.zeros((s0, s1), bool)
     bsure = np.ones((s0, s1), bool)
-    accepted, regular, wins = [], True, []
+    accepted, regular, wins, nonfinite = [], True, [], False
     for (xo, yo, sx, sy, th), r in zip(ells, rows):
-        if not (all(math.isfinite(v) for v in (xo, yo, sx, sy, th)) and sx > 0 and sy > 0):
+        if not all(math.isfinite(v) for v in (xo, yo, sx, sy, th)):
+            # a position that the WCS cannot project onto the image plane (or a NaN catalogue row) has no Gaussian on the image:
+            # it contributes nothing and must leave the other sources alone
+            nonfinite = True
+            accepted.append(None)
+            wins.append(None)
+            continue
+        if not (sx > 0 and sy > 0):
             regular = False
             accepted.append(None)
             wins.append(None)
@@ -153,7 +160,8 @@ def oracle(shape, ells, rows, opt):
             near = (np.abs(np.abs(g) - thr) <= TIE * abs(thr)) & (thr != 0)
             blank |= win & hit
             bsure &= ~(tie | (win & near))
-    return dict(exp=exp, full=full, scale=scale, sure=sure, blank=blank, bsure=bsure, accepted=accepted, regular=regular, wins=wins)
+    return dict(exp=exp, full=full, scale=scale, sure=sure, blank=blank, bsure=bsure, accepted=accepted, regular=regular, wins=wins,
+                nonfinite=nonfinite)
 
 
 def compare(case, m, ells, rows=None):
@@ -276,6 +284,16 @@ def wcs_case(rng, k, opt):
         rows.append({'ra': float(ra), 'dec': float(dec), 'peak': peak, 'a': fa * cd * 3600, 'b': fb * cd * 3600,
                      'pa': rng.uniform(-180, 180), 'rms': abs(peak) * rng.choice([0.01, 0.05, 0.2])})
         labels.append(f'{lx}/{ly}')
+    if rng.random() < 0.3:
+        # a catalogue row that has no position on this image: the far side of the sky (no SIN / TAN projection), or NaN coordinates
+        far = rng.random() < 0.7
+        ra, dec = ((spec['crval'][0] + 180.0 + rng.uniform(-20, 20)) % 360.0, -spec['crval'][1] + rng.uniform(-5, 5)) if far else \
+            (float('nan'), float('nan'))
+        peak = rng.choice([-1, 1]) * rng.uniform(0.5, 30)
+        at = rng.randrange(len(rows) + 1)
+        rows.insert(at, {'ra': ra, 'dec': max(-89.9, min(89.9, dec)) if far else dec, 'peak': peak, 'a': 60.0 * cd * 60, 'b': 40.0 * cd * 60,
+                                                     'pa': rng.uniform(-90, 90), 'rms': abs(peak) * 0.05})
+        labels.insert(at, 'far-side' if far else 'nan-position')
     return {'shape': shape, 'wcs': spec, 'rows': rows, 'opt': opt, 'labels': labels}
 
 
@@ -348,7 +366,7 @@ def pick_pixels(rng, case, ells, o, want):
 def cert_goals(rng, case, m, ells, want):
     shape, opt, rows = case['shape'], case['opt'], case['rows']
     o = oracle(tuple(shape), ells, rows, opt)
-    if not o['regular']:
+    if not o['regular'] or o['nonfinite']:
         return []
     cat = '[' + '; '.join(src_lit(e, r) for e, r in zip(ells, rows)) + ']'
     goals = []
@@ -410,7 +428,7 @@ def roundtrip_problem(work, rows, ext, tag):
         for c in CANON + ['local_rms']:
             have = [float(v) for v in t[c]]
             want = [float(r['rms' if c == 'local_rms' else ROWKEY[c]]) for r in rows]
-            if have != want:
+            if [None if math.isnan(v) else v for v in have] != [None if math.isnan(v) else v for v in want]:
                 return f'astropy round trip of column {c} through .{ext}: wrote {want}, read {have}'
     except Exception as e:
         return f'astropy round trip through .{ext} raised {type(e).__name__}: {e}'
@@ -432,7 +450,7 @@ def load_problem(work, rows, names, ext, tag, extra=None):
     for k, (s, r) in enumerate(zip(got, rows)):
         have = [float(getattr(s, c)) for c in CANON] + [float(s.local_rms)]
         want = [float(r[ROWKEY[c]]) for c in CANON] + [float(r['rms'])]
-        if have != want:
+        if [None if math.isnan(v) else v for v in have] != [None if math.isnan(v) else v for v in want]:
             return f'load_sources({colmap}): row {k} has (ra,dec,peak_flux,a,b,pa,local_rms) = {have}, the file has {want}', p, colmap
     return None, p, colmap
 
@@ -541,8 +559,12 @@ def run(ctx, model_ok=True):
             o = oracle(tuple(case['shape']), ells, case['rows'], case['opt'])
             nontrivial = any(a for a in o['accepted'])
             if case['wcs']['kind'] == 'wcs':
-                ok = all(math.isfinite(v) for e in ells for v in e) and all(e[2] > 0 and e[3] > 0 for e in ells)
-                nreg += len(ells)
+                # positions that have no image on the plane (far side of a SIN / TAN sky, NaN rows) come back all-NaN; the others
+                # are finite with positive axes
+                proj = [e for e, lab in zip(ells, case['labels']) if lab not in ('far-side', 'nan-position')]
+                ok = all(math.isfinite(v) for e in proj for v in e) and all(e[2] > 0 and e[3] > 0 for e in proj) and \
+                    all(all(math.isfinite(v) for v in e) or all(math.isnan(v) for v in e[:2]) for e in ells)
+                nreg += len(proj)
                 if not ok:
                     ctx.oblige('library hypothesis: sky2pix_ellipse returns finite values with sx > 0, sy > 0', False, str(ells))
         ctx.case(key=(kind, optk, tuple(sorted(case['labels']))) if nontrivial else None, bucket=f'{kind}:{optk}',
